@@ -12,7 +12,7 @@ PROP = {
         ],
         "lanes": [
             native("c04"),
-            # ~5 s per tree under Miri (measured): 10 trees per seed, alternating the two runtimes
-            miri("c04", seeds_q=0, seeds_t=8, scale=1, args={"trees": 10}),
+            # ~5 s per tree under Miri (measured): 8 trees per seed, alternating the two runtimes
+            miri("c04", seeds_q=0, seeds_t=8, scale=1, args={"trees": 8}),
         ],
     }
